@@ -22,6 +22,15 @@ fn leaf_menu() -> Vec<RE> {
         RE::Val(RV::None),
         RE::Val(RV::Bool(true)),
         RE::Val(RV::Dec(RDec { neg: true, mant: 150, scale: 2 })),
+        // leaves whose rendering, followed by `.0`, reads like one longer literal
+        RE::Val(RV::float(5.0)),
+        RE::Val(RV::Dec(RDec { neg: false, mant: 5, scale: 0 })),
+        RE::reff("f"),
+        RE::reff("d"),
+        RE::Sym("f".into()),
+        RE::Sym("d".into()),
+        RE::reff("i"),
+        RE::reff("e"),
     ]
 }
 
@@ -195,7 +204,7 @@ fn literal_cases() -> Vec<Case> {
     let ks = kinds();
     let leaves = literal_leaves();
     let parents: Vec<&super::c05::Kind> =
-        ks.iter().filter(|k| ["Add", "Contains", "BitAnd", "Neg", "List2", "Map2", "Call", "IndexField", "If", "Eq", "Int"].contains(&k.label.as_str())).collect();
+        ks.iter().filter(|k| ["Add", "Contains", "BitAnd", "Neg", "List2", "Map2", "Call", "IndexField", "IndexPos", "If", "Eq", "Int"].contains(&k.label.as_str())).collect();
     let mut out = Vec::new();
     for (ll, leaf) in &leaves {
         if let Some(text) = leaf.unparse() {
